@@ -667,7 +667,7 @@ def main():
                      "kind_free_text": "Coq 8.16 development (coq/theories) + Python differential harness (harness/)"}],
         "checks": checks,
         "not_applicable": na,
-        "notes": "One CLI: ./vcheck <ID> --tier quick|thorough ; ./vcheck replay <file>. VERIF_SEED honoured (single PRNG). Every run regenerates coq/theories/Gen/*.v from /repo's working tree (harness/genmods/*.py) before building the proofs. When the tree under test differs from baseline_tree.json (the tree the checks were last shown to pass on) and the first quick pass finds nothing, the quick tier re-runs under further seeds (VERIF_ESCALATE_SEEDS, default 6; VERIF_ESCALATE_BUDGET seconds, default 200; VERIF_NO_ESCALATE=1 disables): this only adds explored inputs. No hooks in /repo; 34 fix: commits (known_findings.json, list 'fixed').",
+        "notes": "One CLI: ./vcheck <ID> --tier quick|thorough ; ./vcheck replay <file>. VERIF_SEED honoured (single PRNG). Every run regenerates coq/theories/Gen/*.v from /repo's working tree (harness/genmods/*.py) before building the proofs. When the tree under test differs from baseline_tree.json (the tree the checks were last shown to pass on) and the first quick pass finds nothing, the quick tier re-runs under further seeds (VERIF_ESCALATE_SEEDS, default 6; VERIF_ESCALATE_BUDGET seconds, default 200; VERIF_NO_ESCALATE=1 disables): this only adds explored inputs. No hooks in /repo; the repaired genuine defects are the `fix:` commits of /repo (git -C /repo log --grep '^fix:'), each recorded in known_findings.json, list 'fixed'.",
     }
     json.dump(m, open("MANIFEST.json", "w"), indent=1)
 
